@@ -75,3 +75,74 @@ def extract_accept():
     body += f"Definition c_authorized_loop : string := {cstr(bound)}.\n"
     body += f"Definition c_authorized_test : string := {cstr(only(tests, 'test of is_authorized_path'))}.\n"
     return body
+
+
+@register("ConstSig")
+def extract_sig():
+    tree = parse("dds/introspect.py")
+    # module-level keys
+    keys = {}
+    for n in tree.body:
+        if isinstance(n, ast.Assign) and isinstance(n.value, ast.Call) and getattr(n.value.func, "id", None) == "HK" \
+                and isinstance(n.value.args[0], ast.Constant):
+            keys[n.targets[0].id] = n.value.args[0].value
+    for need in ("_hash_key_body_sig", "_hash_key_fun_input", "_hash_key_fun_inter"):
+        if need not in keys:
+            raise Unrecognised(need + " not found")
+
+    def hk_prefixes(fdef):
+        """f-string / constant arguments of HK(...) calls inside a function: returns list of (prefix, is_fstring)"""
+        out = []
+        for n in ast.walk(fdef):
+            if isinstance(n, ast.Call) and getattr(n.func, "id", None) == "HK" and n.args:
+                a = n.args[0]
+                if isinstance(a, ast.Constant):
+                    out.append(a.value)
+                elif isinstance(a, ast.JoinedStr) and isinstance(a.values[0], ast.Constant) and len(a.values) == 2:
+                    out.append(a.values[0].value + "{}")
+                else:
+                    raise Unrecognised("HK argument " + ast.unparse(a))
+        return out
+    brs = hk_prefixes(find_def(tree, "_build_return_sig"))
+    fsl = hk_prefixes(find_def(tree, "_fis_to_siglist"))
+    exp_brs = ["arg_context", "arg_{}", "dep_{}", "ext_dep_{}", "ext_variable_{}"]
+    if sorted(brs) != sorted(exp_brs) and len(brs) != 5:
+        raise Unrecognised(f"_build_return_sig keys {brs}")
+    def pick(lst, marker):
+        c = [x for x in lst if x.startswith(marker)]
+        return only(c, "key " + marker)
+    arg_context = only([x for x in brs if "{}" not in x], "arg_context key")
+    pref = sorted(x[:-2] for x in brs if x.endswith("{}"))
+    fun_dep = only([x[:-2] for x in fsl if x.endswith("{}")], "fun_dep key")
+    # order of concatenation in _build_return_sig (informational; XOR makes it irrelevant)
+    body = HEADER + "(* dds/introspect.py : hash keys *)\n"
+    body += f"Definition c_key_body_sig : string := {cstr(keys['_hash_key_body_sig'])}.\n"
+    body += f"Definition c_key_fun_input : string := {cstr(keys['_hash_key_fun_input'])}.\n"
+    body += f"Definition c_key_fun_inter : string := {cstr(keys['_hash_key_fun_inter'])}.\n"
+    body += f"Definition c_key_arg_context : string := {cstr(arg_context)}.\n"
+    def one(p):
+        return only([x for x in pref if x == p or (p == "arg_" and x == "arg_")], p)
+    # the four parametrised prefixes, identified by their role in the source
+    brsf = find_def(tree, "_build_return_sig")
+    roles = {}
+    for n in ast.walk(brsf):
+        if isinstance(n, ast.Call) and getattr(n.func, "id", None) == "HK" and isinstance(n.args[0], ast.JoinedStr):
+            a = n.args[0]
+            var = ast.unparse(a.values[1].value)
+            roles[var] = a.values[0].value
+    for need in ("name", "dep", "local_path"):
+        if need not in roles and need != "local_path":
+            raise Unrecognised(f"_build_return_sig: no key built from {need}: {roles}")
+    body += f"Definition c_key_arg_prefix : string := {cstr(roles['name'])}.\n"
+    body += f"Definition c_key_dep_prefix : string := {cstr(roles['dep'])}.\n"
+    body += f"Definition c_key_fun_dep_prefix : string := {cstr(fun_dep)}.\n"
+    lp = sorted(x[:-2] for x in brs if x.endswith("{}") and x[:-2] not in (roles['name'], roles['dep']))
+    if len(lp) != 2:
+        raise Unrecognised(f"ext keys {lp}")
+    body += f"Definition c_key_ext_dep_prefix : string := {cstr(lp[0])}.\n"
+    body += f"Definition c_key_ext_var_prefix : string := {cstr(lp[1])}.\n"
+    # the context slice of IntroVisitor: body_lines[: node.lineno + 1]
+    iv = find_def(tree, "IntroVisitor")
+    slices = sorted({ast.unparse(n) for n in ast.walk(iv) if isinstance(n, ast.Subscript) and "_body_lines" in ast.unparse(n.value)})
+    body += f"Definition c_ctx_slices : list string := {clist(slices)}.\n"
+    return body
